@@ -39,9 +39,11 @@ def gen_history(rng, tier, exhaustive=None):
         s = rng.randrange(nsk)
         if x < 0.55:
             ops.append(("add", s, rng.randrange(nkeys), None))  # value chosen at run time (near ceiling)
-        elif x < 0.70 and nsk > 1:
+        elif x < 0.66 and nsk > 1:
             b = rng.choice([t for t in range(nsk) if t != s])
             ops.append(("merge", s, b))
+        elif x < 0.70:
+            ops.append(("merge", s, s))  # a sketch merged into itself (aliasing operands)
         elif x < 0.78:
             ops.append(("update_list", s, [rng.randrange(nkeys) for _ in range(rng.randrange(0, 6))]))
         elif x < 0.85:
@@ -264,10 +266,11 @@ class LinearRun:
                     for r in range(self.depth):
                         for c in range(self.width):
                             if R[r][c] != min(A[r][c] + B[r][c], CAP):
-                                fails.append({"what": f"C09 merged cell ({r},{c}) = {R[r][c]}, expected min({A[r][c]}+{B[r][c]}, 2^32-1)"})
-                    if s["after_b"] != s["before_b"]:
+                                fails.append({"what": f"C09 merged cell ({r},{c}) = {R[r][c]}, expected min({A[r][c]}+{B[r][c]}, 2^32-1)"
+                                                      + (" (sketch merged into itself)" if s["a"] == s["b"] else "")})
+                    if s["a"] != s["b"] and s["after_b"] != s["before_b"]:
                         fails.append({"what": "C09 merge modified its argument"})
-                    if nr_ != na + nb or nrr != nra + nrb:
+                    if s["a"] != s["b"] and (nr_ != na + nb or nrr != nra + nrb):
                         fails.append({"what": f"C09 bookkeeping after merge: n_added {nr_} (expected {na+nb}), n_records {nrr} (expected {nra+nrb})"})
                     for j in range(nk):
                         if s["qa"][j] < min(s["qa_before"][j] + s["qb_before"][j], CAP):
@@ -315,7 +318,8 @@ class LinearRun:
                 ops.append([f"lin.merge {s['a']} {s['b']}", None, "op"])
                 if "exact" in kinds:
                     ops.append([f"lin.dump {s['a']}", _dump(*s["after"]), "exact"])
-                    ops.append([f"lin.dump {s['b']}", _dump(*s["after_b"]), "exact"])
+                    if s["a"] != s["b"]:
+                        ops.append([f"lin.dump {s['b']}", _dump(*s["after_b"]), "exact"])
                 if "contract" in kinds:
                     ops.append([f"lin.set 900 0 0 {_flat(s['before_a'][0])}", None, "setup"])
                     ops.append([f"lin.set 901 0 0 {_flat(s['before_b'][0])}", None, "setup"])
@@ -355,7 +359,7 @@ class LinearRun:
 def exhaustive_cases(max_len):
     """all histories of length ≤ max_len over a 3-key alphabet, 2 sketches, width 2, values {1, CAP-1}"""
     keys = [b"", b"a", b"a\0"]
-    atoms = [("add", s, k, v) for s in (0, 1) for k in range(3) for v in (1, CAP - 1)] + [("merge", 0, 1), ("merge", 1, 0)]
+    atoms = [("add", s, k, v) for s in (0, 1) for k in range(3) for v in (1, CAP - 1)] + [("merge", 0, 1), ("merge", 1, 0), ("merge", 0, 0)]
     from itertools import product
 
     for L in range(1, max_len + 1):
